@@ -189,6 +189,62 @@ def ownership(repo, res):
     dcu = uo_.func("Unit.__deepcopy__")
     rets = [norm(n.value) for n in walk_no_nested(dcu.node) if isinstance(n, ast.Return)]
     res.check(rets in (["self.copy(deep=True)"],), "Unit.__deepcopy__", dcu.where(), "copy.deepcopy(unit) is unit.copy(deep=True)", found=rets, rid=r1)
+    # copy.deepcopy(array): the unit handed to the copy is itself a deep copy (own registry); Unit.copy() without
+    # deep=True keeps the original's registry object by design
+    arr_ = repo.mod(ARR)
+    dca = arr_.func("unyt_array.__deepcopy__")
+    res.fn(dca)
+    env_ = {}
+    for n_ in walk_no_nested(dca.node):
+        if isinstance(n_, ast.Assign) and len(n_.targets) == 1 and isinstance(n_.targets[0], ast.Name):
+            env_.setdefault(n_.targets[0].id, []).append(n_.value)
+    deep_forms = ("copy.deepcopy(self.units)", "deepcopy(self.units)", "self.units.copy(deep=True)", "self.units.__deepcopy__(memodict)", "copy.deepcopy(self.units, memodict)", "deepcopy(self.units, memodict)")
+    n_ctor = 0
+    shallow = []
+    for r_ in walk_no_nested(dca.node):
+        if not (isinstance(r_, ast.Return) and isinstance(r_.value, ast.Call)):
+            continue
+        c_ = r_.value
+        if norm(c_.func) not in ("type(self)", "self.__class__", "unyt_array", "unyt_quantity", "cls"):
+            continue
+        n_ctor += 1
+        u_ = c_.args[1] if len(c_.args) > 1 else (kwarg_of(c_, "units") or kwarg_of(c_, "input_units"))
+        vals = [u_]
+        if isinstance(u_, ast.Name) and u_.id in env_:
+            vals = env_[u_.id]
+        for v_ in vals:
+            if v_ is None or norm(v_) not in deep_forms:
+                shallow.append(norm(v_) if v_ is not None else None)
+    if n_ctor == 0:
+        raise AnalysisError(f"{dca.where()}: unyt_array.__deepcopy__ does not return a constructed array")
+    res.check(not shallow, "unyt_array.__deepcopy__:deep-unit", dca.where(), "a deep-copied array is given a unit that still refers to the original's registry object: add / modify / remove through either object's registry changes what the other resolves (for default-registry data, an add() through the copy edits the process-wide table)", "copy.deepcopy(self.units) / self.units.copy(deep=True)", shallow[:2], rid=r1)
+    # per-registry state lives on the instance.  A class-level container with the name of an attribute that the package
+    # mutates in place (registry._unit_object_cache[text] = unit, self.lut.pop(..)) is one object shared by every
+    # registry whose __init__ did not run or whose state left it out (unpickling, copy.copy): what one registry
+    # memoises is then served to the others
+    mutated_ = set()
+    for mod_ in repo.mods(only_anchor=False):
+        for n_ in ast.walk(mod_.tree):
+            tgt_ = None
+            if isinstance(n_, (ast.Assign, ast.AugAssign, ast.Delete)):
+                for t_ in (n_.targets if not isinstance(n_, ast.AugAssign) else [n_.target]):
+                    if isinstance(t_, ast.Subscript) and isinstance(t_.value, ast.Attribute):
+                        mutated_.add(t_.value.attr)
+            elif isinstance(n_, ast.Call) and isinstance(n_.func, ast.Attribute) and n_.func.attr in ("pop", "clear", "update", "setdefault", "append", "add", "popitem", "remove", "extend") and isinstance(n_.func.value, ast.Attribute):
+                mutated_.add(n_.func.value.attr)
+    for cname in ("UnitRegistry", "_NonModifiableUnitRegistry"):
+        cd_ = reg.classes.get(cname)
+        if cd_ is None:
+            raise AnalysisError(f"{REG}: class {cname} not found")
+        shared_ = []
+        for st in cd_.body:
+            if isinstance(st, (ast.Assign, ast.AnnAssign)) and getattr(st, "value", None) is not None:
+                v_ = st.value
+                container = isinstance(v_, (ast.Dict, ast.List, ast.Set, ast.DictComp, ast.ListComp, ast.SetComp)) or (isinstance(v_, ast.Call) and norm(v_.func) in ("dict", "list", "set", "OrderedDict", "defaultdict", "collections.OrderedDict", "collections.defaultdict"))
+                names_ = [norm(t) for t in (st.targets if isinstance(st, ast.Assign) else [st.target])]
+                if container and any(nm in mutated_ for nm in names_):
+                    shared_.append(names_[0])
+        res.check(not shared_, f"{cname}:no-class-level-state", f"{REG} class {cname}", f"{cname} keeps {shared_} as a class-level container although the package mutates that attribute in place: every registry that did not get its own (restored from a pickle, shallow-copied) shares one object with all others", "per-instance containers only", shared_, rid=r1)
     # a registry argument is tested for presence by truth value in several places (Unit.__new__: `if registry and ...`,
     # `registry or default`): the registry classes must not define __len__ / __bool__, or an empty registry
     # (add_default_symbols=False) counts as absent and the default registry is used - and edited - instead
@@ -451,6 +507,8 @@ def namespaces(repo, res):
 
 MUTANTS = [
     Mutant("hdf5-shares-default", ARR, "unyt_array.from_hdf5", "unit_lut = default_unit_symbol_lut.copy()", "unit_lut = default_unit_symbol_lut", ("C13-R1", "C13-R2")),
+    Mutant("array-deepcopy-shares-registry", ARR, "unyt_array.__deepcopy__", "copy.deepcopy(self.units)", "self.units.copy()", ("C13-R1",), count=2),
+    Mutant("class-level-unit-cache", REG, None, "    _unit_system_id = None\n", "    _unit_system_id = None\n    _unit_object_cache = {}\n", ("C13-R1",)),
     Mutant("deepcopy-shares", REG, "UnitRegistry.__deepcopy__", "lut = dict(self.lut)", "lut = self.lut", ("C13-R1",)),
     Mutant("init-aliases-default", REG, "UnitRegistry.__init__", "            self.lut = {}\n", "            self.lut = default_unit_symbol_lut\n", ("C13-R1", "C13-R2")),
     Mutant("init-shared-cache", REG, "UnitRegistry.__init__", "        self._unit_object_cache = {}\n", "        self._unit_object_cache = _shared_cache\n", ("C13-R1",)),
